@@ -29,6 +29,16 @@ def vh_path(prop):
     return os.path.join(BUILD, "vh-" + prop.lower())
 
 
+def same_up_to_unknown_errors(g, l):
+    """The Go side prints the error class `err:?` when the code refused with an error text the harness does not
+    know (a reworded message): the line then agrees with the model's line whatever error class the model names
+    at that place. Known texts are still compared class by class."""
+    if "err:?" not in g:
+        return False
+    pat = re.escape(g).replace(re.escape("err:?"), r"err:[^ ,;]*")
+    return re.fullmatch(pat, l) is not None
+
+
 ALLOWED_AXIOMS = {"propext", "Classical.choice", "Quot.sound"}
 FORBIDDEN = re.compile(r"\b(sorry|admit|native_decide|bv_decide|implemented_by|unsafe)\b|^\s*axiom\s|maxHeartbeats\s+0\b")
 
@@ -231,7 +241,7 @@ class Ctx:
         for i, op in enumerate(ops):
             g = go[i] if i < len(go) else "<missing>"
             l = le[i] if i < len(le) else "<missing>"
-            if g != l:
+            if g != l and not same_up_to_unknown_errors(g, l):
                 mism.append({"op": op, "go": g, "lean": l})
         self.evaluations += meta.get("evaluations", 0)
         self.distinct += meta.get("distinct_ops", 0)
